@@ -49,6 +49,21 @@ impl<W: WorldSpec> Engine<W> {
                 vio("C12", "capacity-below-len", format!("{}: capacity() {} < len() {}", d.info().name, cap, len));
                 return;
             }
+            // Archetype::version() (public): two equal readings mean "no removal in between" - that
+            // is what a client caches next to its direct handles (C09)
+            {
+                let pv = d.version(w);
+                let wrapping = self.cfg.wrapping;
+                let am = &mut self.ms[wid].archs[ai];
+                if let Some((old, rem)) = am.pub_ver {
+                    if !wrapping && am.removals > rem && pv == old {
+                        vio("C09", "public-version-unchanged-over-removals", format!("{}: Archetype::version() is still {} after {} more removals", d.info().name, pv, am.removals - rem));
+                        return;
+                    }
+                }
+                am.pub_ver = Some((pv, am.removals));
+            }
+            let w = self.ws[wid].as_ref().unwrap();
             let ents = d.entities(w);
             let want: BTreeSet<Bits> = self.ms[wid].live_of(ai).into_iter().collect();
             let got: BTreeSet<Bits> = ents.iter().copied().collect();
@@ -240,6 +255,12 @@ impl<W: WorldSpec> Engine<W> {
             if am.ver_obs != 0 && !wrapping {
                 if v < am.ver_obs || (am.removals > am.rem_at_obs && v == am.ver_obs) {
                     vio("C09", "rep-version", format!("{}: archetype version went {} -> {} over {} removals", name, am.ver_obs, v, am.removals - am.rem_at_obs));
+                    return;
+                }
+            }
+            if let Some((pv, _)) = am.pub_ver {
+                if pv != v {
+                    vio("C09", "public-version-differs", format!("{}: Archetype::version() reads {} but the stored archetype version is {}", name, pv, v));
                     return;
                 }
             }
